@@ -179,3 +179,30 @@ def run(chk):
                                 raise Violation(k, f"{k} = {v} for a loss kind without that term", "0")
                     return "unconfigured terms are 0"
                 chk.run("C03.R3", site, cfg, go_zero, construct="unconfigured term == 0")
+
+    # parameters without equation parameters (an empty dict)
+    for eq_type, names in all_terms.items():
+        site = {"ODE": "jinns.loss._LossODE:LossODE.evaluate", "statio_PDE": "jinns.loss._LossPDE:LossPDEStatio.evaluate",
+                "nonstatio_PDE": "jinns.loss._LossPDE:LossPDENonStatio.evaluate"}[eq_type]
+        # (`eq_params=None`, the declared default of Params, is not a supported value: several helpers call
+        # `.keys()` / `.items()` on it; see DESIGN section 6)
+        for label, eqv in (("{}", {}),):
+            cfg = {"loss": eq_type, "net": "PINN", "configured": list(names), "eq_params": label}
+
+            def go_noeq(eq_type=eq_type, names=names, eqv=eqv):
+                from ..alg import NNLabel
+                p = E.Params.make(nn_params=NNLabel('u'), eq_params=eqv)
+                S = SingleLoss(E, eq_type, 'PINN', d=2, m_u=1, m_res=1, terms=names, eq_keys=(), params=p)
+                total, terms = S.evaluate()
+                t = scalar_of(total, 'total')
+                s = Poly()
+                for k, v in terms.items():
+                    s = s + scalar_of(v, k)
+                if canon(t) != canon(s):
+                    raise Violation("total", f"total - sum(terms) = {canon(t) - canon(s)}", "0")
+                found = canon(scalar_of(terms['dyn_loss'], 'dyn_loss'))
+                exp = canon(scalar_of(S.expected_dyn(()), 'spec'))
+                if found != exp:
+                    raise Violation("dyn_loss", str(found), str(exp))
+                return f"total == sum of {sorted(terms)}; dyn_loss = {found}"
+            chk.run("C03.R2", site, cfg, go_noeq, construct="total == sum(terms) without equation parameters")
